@@ -3,8 +3,9 @@
 
     Outcomes: [MOk v] the new column value; [MErr] the operation is rejected
     (ill-typed argument, mutator not supported for the column);
-    [MPanic] marks the arithmetic Go would panic on (integer division or
-    modulo by zero) — the repaired code reports a domain error there. *)
+    [MDomain] marks the arithmetic Go would panic on (integer division or
+    modulo by zero) — the repaired code reports a domain error there;
+    [MRange] an integer result outside int64 (a range error). *)
 From LOV Require Export Base.Schema.
 From Coq Require Import QArith.
 
@@ -12,7 +13,13 @@ Inductive mutator := MAdd | MSub | MMul | MDiv | MMod | MInsert | MDelete.
 Global Instance mutator_eq_dec : EqDecision mutator.
 Proof. solve_decision. Defined.
 
-Inductive mres := MOk (v : value) | MErr | MDomain.
+Inductive mres := MOk (v : value) | MErr | MDomain | MRange.
+
+(** integers are Go's int (64 bits): a result that is not representable is the
+    "range error" of RFC 7047 5.1 (checkArithmeticRange redoes the operation
+    with arbitrary precision), never a wrapped value *)
+Definition in_int64 (z : Z) : bool := (-9223372036854775808 <=? z)%Z && (z <? 9223372036854775808)%Z.
+Definition int_res (z : Z) : mres := if in_int64 z then MOk (VAtom (AInt z)) else MRange.
 
 Definition qred_pair (q : Q) : Z * positive := let r := Qred q in (Qnum r, Qden r).
 
@@ -32,10 +39,10 @@ Definition mutate_atom (cur : atom) (m : mutator) (arg : atom) : mres :=
   match cur, arg with
   | AInt x, AInt y =>
     match m with
-    | MAdd => MOk (VAtom (AInt (x + y)))
-    | MSub => MOk (VAtom (AInt (x - y)))
-    | MMul => MOk (VAtom (AInt (x * y)))
-    | MDiv => if Z.eqb y 0 then MDomain else MOk (VAtom (AInt (Z.quot x y)))
+    | MAdd => int_res (x + y)
+    | MSub => int_res (x - y)
+    | MMul => int_res (x * y)
+    | MDiv => if Z.eqb y 0 then MDomain else int_res (Z.quot x y)
     | MMod => if Z.eqb y 0 then MDomain else MOk (VAtom (AInt (Z.rem x y)))
     | _ => MErr
     end
